@@ -115,17 +115,19 @@ impl<'s> Iterator for StripStrIter<'s> {
 fn next_str<'s>(bytes: &mut &'s [u8], state: &mut State) -> Option<&'s str> {
     let offset = bytes.iter().copied().position(|b| {
         let (next_state, action) = state_change(*state, b);
-        if next_state != State::Anywhere {
+        // Multi-byte characters are taken as a whole below, no need to track them
+        if next_state != State::Anywhere && next_state != State::Utf8 {
             *state = next_state;
         }
         is_printable_bytes(action, b)
     });
     let (_, next) = bytes.split_at(offset.unwrap_or(bytes.len()));
     *bytes = next;
-    *state = State::Ground;
 
+    // Whitespace can be executed inside of an escape sequence, so check against the current
+    // state.  Printable bytes never change it.
     let offset = bytes.iter().copied().position(|b| {
-        let (_next_state, action) = state_change(State::Ground, b);
+        let (_next_state, action) = state_change(*state, b);
         !(is_printable_bytes(action, b) || is_utf8_continuation(b))
     });
     let (printable, next) = bytes.split_at(offset.unwrap_or(bytes.len()));
@@ -305,19 +307,19 @@ fn next_bytes<'s>(
             if utf8parser.add(b) {
                 *state = State::Ground;
             }
-            false
-        } else {
-            let (next_state, action) = state_change(State::Ground, b);
-            if next_state != State::Anywhere {
-                *state = next_state;
-            }
-            if *state == State::Utf8 {
-                utf8parser.add(b);
-                false
-            } else {
-                !is_printable_bytes(action, b)
-            }
+            return false;
         }
+        // Whitespace can be executed inside of an escape sequence, so check against the current
+        // state.  The byte that ends the run is left for the next call to process.
+        let (next_state, action) = state_change(*state, b);
+        if !is_printable_bytes(action, b) {
+            return true;
+        }
+        if next_state == State::Utf8 {
+            *state = next_state;
+            utf8parser.add(b);
+        }
+        false
     });
     let (printable, next) = bytes.split_at(offset.unwrap_or(bytes.len()));
     *bytes = next;
